@@ -120,3 +120,94 @@ def check_program(res, stream, st, case, text, status, bas, clauses):
             res.count("delimited_lines")
         else:
             res.count("run_together_lines")
+
+
+# ---------------------------------------------------------------------------------------------
+# the command-line layer of the two converters against its Lean model (Model/ConvCli.lean)
+# ---------------------------------------------------------------------------------------------
+
+LISTINGS = ["10 PRINT \"A\"\n20 GOTO 10\n", "10 rem x\n", "", "no number here\n", "10 A\n\n20 B\n", "5 ok\n7", "10 A\r\n20 B\r\n",
+            "10 PRINT \"é\"\n", "1\n", "10 IF A THEN 20 ELSE 30\n"]
+BASICS = [b"\r10 A\r20 B\r", b"", b"10 A", b"\r\n\r\n", b"\xff\x00\x05\x25\xab\x00\x0a\x41\x00\x00\x00", b"X\nY\r\nZ", bytes(range(256))]
+LST_ARGS = ["p.lst", "P.LST", "q.Lst,a", "q.lst,A", "my.v2.lst", "d.x/in.lst,a", "d.x/in.lst", "noext", "x.txt", "x.lst,b", "x.lsta", "gone.lst",
+            "gone.lst,a", ".lst", "lst", "a,a", "x.bas", "dir.lst/plain", "w.LST,a"]
+BAS_ARGS = ["p.bas,a", "P.BAS,A", "q.Bas,a", "q.bas", "my.v2.bas,A", "d.x/in.bas,a", "noext", "x.txt,a", "x.bas,b", "gone.bas,a", "gone.bas",
+            "bas,a", "bas", "abas,a", ".bas,a", "x.basa", "a,a", ",a", "as,a"]
+
+
+def conv_cli_stream(ctx, res, n):
+    """command lines of moto_lst2bas / moto_bas2lst — several sources, both conversions, either case, wrong and missing
+    extensions, missing files, a listing the tokenizing conversion refuses, earlier results at the destination — run in-process in a
+    scratch directory and compared with the model: status, and the directory afterwards = the directory before + the model's writes"""
+    from moto_lst2bas.lst2bas import ListingToBasicCli
+    from moto_bas2lst.bas2lst import BasicToListingCli
+    import tapelib as T
+    rng = ctx.rng
+    st = res.stream("conv_cli")
+    for i in range(n):
+        tool = "lst2bas" if i % 2 == 0 else "bas2lst"
+        d = ctx.fresh_dir()
+        pool = LST_ARGS if tool == "lst2bas" else BAS_ARGS
+        # two sources in three are well-formed ones (the first seven of each pool), so that runs of several conversions are common
+        args = [rng.choice(pool[:7] if rng.random() < 0.66 else pool) for _ in range(rng.choice([1, 1, 2, 3]))]
+        world = {}
+        for a in args:
+            if tool == "lst2bas":
+                path = a[:-2] if a[-2:].upper() == ",A" else a
+                content = rng.choice(LISTINGS).encode("utf-8")
+            else:
+                path = a[:-2] if a[-2:].upper() == ",A" else a
+                content = rng.choice(BASICS)
+            if path.startswith("gone") or not path or path in world:
+                continue
+            if "/" in path and os.path.basename(path) == "plain":
+                os.makedirs(os.path.join(d, os.path.dirname(path)), exist_ok=True)
+            os.makedirs(os.path.join(d, os.path.dirname(path)), exist_ok=True)
+            if os.path.isdir(os.path.join(d, path)):
+                continue
+            with open(os.path.join(d, path), "wb") as f:
+                f.write(content)
+            world[path] = content
+        if rng.random() < 0.3:
+            # an earlier, longer result at one of the destinations
+            a = args[0]
+            stem = (a[:-2] if a[-2:].upper() == ",A" else a)[:-3]
+            tgt = stem + ("bas" if tool == "lst2bas" else "lst")
+            if tgt not in world and tgt and not os.path.isdir(os.path.join(d, tgt)) and os.path.isdir(os.path.dirname(os.path.join(d, tgt))):
+                with open(os.path.join(d, tgt), "wb") as f:
+                    f.write(b"EARLIER RESULT " * 100)
+        before = T.snapshot(d)
+        dos = tool == "bas2lst" and rng.random() < 0.5
+        if tool == "lst2bas":
+            status, _ = run_cli(ListingToBasicCli().run, args, cwd=d)
+            req = f"conv.lst2bas {len(args)} " + " ".join(cps(a) for a in args) + "".join(
+                f" {cps(p)} {cps(c.decode('utf-8'))}" for p, c in world.items())
+        else:
+            status, _ = run_cli(BasicToListingCli().run, args + (["--dos"] if dos else []), cwd=d)
+            req = f"conv.bas2lst {1 if dos else 0} {len(args)} " + " ".join(cps(a) for a in args) + "".join(
+                f" {cps(p)} {hx(c)}" for p, c in world.items())
+        after = T.snapshot(d)
+        case = {"tool": tool, "args": args, "dos": dos, "files": {p: len(c) for p, c in world.items()}}
+        st.see(case)
+        res.count(f"conv_cli:{tool}:{status}")
+        ans = drv([req])[0]
+        if ans == "unmodelled":
+            st.unmodelled += 1
+            continue
+        st.compared += 1
+        mstatus, mw = ans.split("|")
+        expect = dict(before)
+        if mw:
+            for w in mw.split(";"):
+                p, h = w.split(">")
+                expect[uncps(p)] = unhx(h)
+        if mstatus != status or expect != after:
+            diff = sorted(k for k in set(expect) | set(after) if expect.get(k) != after.get(k))
+            res.disagree("conv_cli", case, {"status": mstatus, "differing_files": diff[:5]}, {"status": status})
+        # oracle, independent of the model: no source file is ever altered, and nothing but `<name minus 3 characters>bas|lst` appears
+        for p, c in world.items():
+            if after.get(p) != c:
+                res.violate("conv_cli", "a converter altered one of its source files", case, p, {"clause": "source_untouched"})
+        for k in after:
+            if k not in before and not k.endswith("bas" if tool == "lst2bas" else "lst"):
+                res.violate("conv_cli", "a converter created a file that is not a conversion result", case, k, {"clause": "only_results"})
